@@ -310,6 +310,9 @@ func genPubStress(g *genCtx) {
 	// a slow OnFiltered callback on one subscriber must not eat into the timeout of the others
 	g.newCase("kind=slowcb")
 	g.op("slowcb msgs=5")
+	// a timeout of zero (or less) is a timeout: with nobody receiving, the message is dropped at once, not after the default
+	g.newCase("kind=zeroto")
+	g.op("zeroto msgs=5")
 	for t := 0; t < rounds; t++ {
 		g.newCase("kind=stress")
 		r := g.rng
@@ -344,6 +347,10 @@ func execPubStressCase(x *execCtx) {
 		f := fields(toks[1:])
 		if toks[0] == "slowcb" {
 			fmt.Fprintf(real, "%s => %s\n", line, pubSlowCallback(atoi(f["msgs"])))
+			continue
+		}
+		if toks[0] == "zeroto" {
+			fmt.Fprintf(real, "%s => %s\n", line, pubZeroTimeout(atoi(f["msgs"])))
 			continue
 		}
 		if toks[0] == "churn" {
@@ -400,6 +407,33 @@ func pubSlowCallback(M int) string {
 		}
 	}
 	return fmt.Sprintf("dup=%d foreign=0 rejected=0 missing=%d left=0 unclosed=0 timeouts=%d %s", dup, missing, timeouts.Load(), raceObs())
+}
+
+// pubZeroTimeout: unbuffered subscribers with WithTimeout(0) and WithTimeout(-1s), in both option orders, nobody receiving:
+// every message is dropped (OnTimeout once per message and subscriber) and no delivery goroutine is left — well within 2 s.
+func pubZeroTimeout(M int) string {
+	p := publisher.NewPublication[int]()
+	var timeouts atomic.Int64
+	cb := publisher.OnTimeout(func(int) { timeouts.Add(1) })
+	p.Subscribe(0, publisher.WithTimeout[int](0), cb)
+	p.Subscribe(0, cb, publisher.WithTimeout[int](0))
+	p.Subscribe(0, publisher.WithTimeout[int](-time.Second), cb)
+	const N = 3
+	for m := 1; m <= M; m++ {
+		p.Publish(m)
+	}
+	deadline := time.Now().Add(2 * time.Second)
+	for timeouts.Load() < int64(N*M) && time.Now().Before(deadline) {
+		time.Sleep(time.Millisecond)
+	}
+	late := N*M - int(timeouts.Load())
+	left := 0
+	if gs := settle("toolchest/publisher.", func() int64 { return 0 }, 2*time.Second); gs != nil {
+		left = len(gs)
+	} else {
+		left = 1
+	}
+	return fmt.Sprintf("dup=0 foreign=0 rejected=0 missing=0 left=%d unclosed=0 timeouts=0 latedrop=%d %s", left, late, raceObs())
 }
 
 // pubChurn: a message published after Subscribe has returned reaches the new subscriber, however often subscribers come
